@@ -20,6 +20,7 @@ theorem runOps_fold {σ : Type} (g : σ → Ev → σ) (Inv : σ → Prop)
     (hff : ∀ s a t x, Inv s → g s (.force a t x false) = s)
     (hpair : ∀ s a t x, Inv s → g (g s (.force a t x true)) (.ecmd t x) = s)
     (herr : ∀ s u, Inv s → g s (.err u) = s)
+    (hexec : ∀ s u r, Inv s → g s (.exec u r) = s)
     (sc : Scripts) (f : Nat) (w : World) (me : Nat) (ops : List Op) (s : σ) (hs : Inv s) :
     (runOps sc f w me ops).2.foldl g s = s := by
   induction f generalizing w me ops with
@@ -50,6 +51,7 @@ theorem runOps_fold {σ : Type} (g : σ → Ev → σ) (Inv : σ → Prop)
       | gc => apply hop; simp [hgc _ _ _ hs]
       | it => apply hop; simp [hit _ _ _ hs]
       | err => apply hop; simp [herr _ _ hs]
+      | exec => apply hop; simp [hexec _ _ _ hs]
 
 /-- shape of the events of one process_user_command call -/
 theorem puc_events (sc : Scripts) (w : World) :
@@ -74,7 +76,7 @@ theorem struct_script (s : SState) : (∀ a t ok, structStep s (.kick a t ok) = 
 theorem struct_runOps (sc : Scripts) (f : Nat) (w : World) (me : Nat) (ops : List Op) (s : SState) :
     (runOps sc f w me ops).2.foldl structStep s = s :=
   runOps_fold structStep (fun _ => True) (fun _ _ _ _ _ => rfl) (fun _ _ _ _ _ => rfl) (fun _ _ _ _ => rfl)
-    (fun _ _ _ _ => rfl) (fun _ _ _ _ _ => rfl) (fun _ _ _ _ _ => rfl) (fun _ _ _ => rfl) sc f w me ops s trivial
+    (fun _ _ _ _ => rfl) (fun _ _ _ _ _ => rfl) (fun _ _ _ _ _ => rfl) (fun _ _ _ => rfl) (fun _ _ _ _ => rfl) sc f w me ops s trivial
 
 /-- inside a cycle the command loop adds no violation: whoever is in `served` holds no turn any more -/
 theorem struct_cmdLoop (sc : Scripts) (k : Nat) (w : World) (hs : Safe w) (s : SState) (n : Nat) (hc : s.cyc = some n)
@@ -211,6 +213,7 @@ theorem efun_runOps (sc : Scripts) (f : Nat) (w : World) (me : Nat) (ops : List 
     subst h
     simp [efunStep]
   · intro s u h; exact efun_neutral s h _ (by intro _ _ _ hh; cases hh)
+  · intro s u r h; exact efun_neutral s h _ (by intro _ _ _ hh; cases hh)
   · exact hs
 
 theorem efun_cmdLoop (sc : Scripts) (k : Nat) (w : World) (s : EState) (hs : s.expect = none) :
